@@ -491,10 +491,39 @@ func runC03(p *core.Prog, r *core.Report, tier string) {
 			})
 			r.Check(w == nil, "C03.f", fmt.Sprintf("checkEventForReorg|handler#%d|%s", nGo, core.CalleeName(g.Common())), p.Pos(g.Pos()), "the handler starts when a stored root differs from the received one", "the change handler is not started under a comparison of the stored with the received dependent root", p.WitnessText(w)...)
 		})
+		// one event can change both roots (a reorg deeper than an epoch boundary): the two comparisons are independent,
+		// so a start of the previous-root handler can be followed, in the same call, by a start of the current-root handler
+		var prevGo, curGo []ssa.Instruction
+		core.EachInstr(f, func(in ssa.Instruction) {
+			if g, ok := in.(*ssa.Go); ok {
+				n := core.CalleeName(g.Common())
+				if strings.Contains(n, "Previous") {
+					prevGo = append(prevGo, in)
+				} else if strings.Contains(n, "Current") {
+					curGo = append(curGo, in)
+				}
+			}
+		})
+		both := false
+		for _, a := range prevGo {
+			for _, b := range curGo {
+				b := b
+				if w := (core.PathQuery{Fn: f, From: a, Target: func(x ssa.Instruction) bool { return x == b }}).Find(); w != nil {
+					both = true
+				}
+			}
+		}
+		r.Check(both || len(prevGo) == 0 || len(curGo) == 0, "C03.f", "checkEventForReorg|both-roots-independent", p.Pos(f.Pos()), "the previous-root and current-root comparisons are independent: both handlers can start for one event",
+			"once the previous dependent root is found changed the current dependent root is no longer compared: an event that changes both refreshes only part of the duties, and the stored roots are then overwritten so the missed refresh never happens")
 		r.Check(nGo >= 3, "C03.f", "checkEventForReorg|handlers", p.Pos(f.Pos()), fmt.Sprintf("%d change handlers", nGo), fmt.Sprintf("only %d change handlers are started (previous root at epoch change, previous root, current root expected)", nGo))
 	} else {
 		r.Undecide("C03.f", "checkEventForReorg", "", "anchor not found")
 	}
+
+	// ---- (k) duties of an epoch are scheduled from that epoch's validators ----
+	nK := checkEpochPairing(p, r, ds, "C03.k", []string{"scheduleAttestations", "scheduleProposals", "scheduleSyncCommitteeMessages", "subscribeToBeaconCommittees"},
+		"jobs of epoch %s are set up from the validators obtained for epoch %s: a validator that differs between the two epochs (activating, exiting) gets no job, or a job it should not have")
+	r.Floor("C03.k scheduling calls with locally obtained validators", nK, 6)
 	// handlers refresh the right epochs
 	if f := p.Func(ctrlRel, "Service", "handleCurrentDependentRootChanged"); f != nil {
 		for _, ci := range core.Calls(f, func(c *ssa.CallCommon) bool {
